@@ -156,6 +156,12 @@ class PathEnumerator(object):
             return vals
         if isinstance(e, ast.Call):
             return self._call(e)
+        if isinstance(e, ast.ListComp) and len(e.generators) == 1 and isinstance(
+                e.generators[0].target, ast.Name) and isinstance(e.elt, ast.Name) and \
+                e.elt.id == e.generators[0].target.id and e.generators[0].ifs:
+            g = e.generators[0]
+            cond = g.ifs[0] if len(g.ifs) == 1 else ast.BoolOp(op=ast.And(), values=list(g.ifs))
+            return Sym("filter", data=(g.target.id, cond, self._subst(g.iter)), node=e)
         if isinstance(e, (ast.BoolOp, ast.Compare, ast.UnaryOp)):
             return self._truth(e)
         return Sym("expr", node=self._subst(e))
@@ -171,6 +177,9 @@ class PathEnumerator(object):
             recv, arg = self._eval(f.value), self._eval(e.args[0])
             if isinstance(recv, str) and isinstance(arg, str):
                 return recv.startswith(arg)
+            if isinstance(recv, str) and isinstance(arg, (list, tuple)) and all(
+                    isinstance(x, str) for x in arg):
+                return recv.startswith(tuple(arg))
         if isinstance(f, ast.Attribute) and f.attr == "endswith" and len(e.args) == 1:
             recv, arg = self._eval(f.value), self._eval(e.args[0])
             if isinstance(recv, str) and isinstance(arg, str):
